@@ -46,3 +46,26 @@ package wallet
 //@     modifies clones[*]
 //@     invariant forall b BackendID :: has(clones, b) <==> visited(b)
 //@     invariant forall b BackendID :: visited(b) ==> clones[b] != nil && fresh(payload(clones[b])) && addrEq(clones[b], as[b])
+
+// Interface contracts of wallet.Address / wallet.Account (assumed for backend implementations).
+//@ ghost func addrEqual(a Address, b Address) bool
+//@ ghost func accAddr(a Account) Address
+//@ interface Address
+//@   method Equal
+//@     requires recv != nil
+//@     ensures result == addrEqual(recv, arg0)
+//@ end
+//@ interface Account
+//@   method Address
+//@     requires recv != nil
+//@     ensures result == accAddr(recv) && result != nil
+//@ end
+
+//@ func IndexOfAddrs
+//@   requires forall i int :: 0 <= i && i < len(addrs) ==> addrMapNonNil(addrs[i])
+//@   ensures -1 <= result && result < len(addrs)
+//@   loop 1
+//@     invariant true
+//@   loop 2
+//@     modifies
+//@     invariant 0 <= i && i < len(addrs) && as == addrs[i]
